@@ -9,8 +9,8 @@ open JPV JPV.Impl JPV.Proofs.Cf JPV.Proofs.Prn
 
 /-- copy of `Proofs.FloatRoundTrips` (stated in `Proofs.PrintCompile`, which imports this file) -/
 def FloatRT (x : Num) : Prop :=
-  Spec.numberSpelling (Py.reprFloat x) = some (Py.reprFloat x, []) ∧
-  Spec.numberValue (Py.reprFloat x) = some x
+  Spec.numberSpelling (Impl.strFloat x) = some (Impl.strFloat x, []) ∧
+  Spec.numberValue (Impl.strFloat x) = some x
 
 /-- a number literal whose printed spelling reads back -/
 def NumOK (x : Num) : Prop :=
@@ -24,7 +24,7 @@ def LitOK : Json → Prop
   | _ => True
 
 /-- the text a number literal is printed as -/
-def numText (x : Num) : Str := if x.flt then Py.reprFloat x else Py.reprInt x.n
+def numText (x : Num) : Str := if x.flt then Impl.strFloat x else Py.reprInt x.n
 
 theorem strLit_num (x : Num) : Impl.strLit (.num x) = numText x := by rw [Impl.strLit]; rfl
 
